@@ -141,3 +141,53 @@ package index
 //@   ensures base(result0) == base(files) && offset(result0) == offset(files) && len(result0) <= len(files)
 //@   ensures result1 > 0 ==> result0 == files
 //@   ensures result1 == 0 ==> len(result0) >= 1
+
+// ---------------------------------------------------------------------------
+// C37 (continued): newline index and tag conversion
+// ---------------------------------------------------------------------------
+
+//@ pure func sortedU32(s []uint32) bool = forall a, b int :: 0 <= a && a < b && b < len(s) ==> s[a] < s[b]
+
+//@ func index.(*tagsToSections).newLinesIndices
+//@   requires t != nil && len(in) < 4294967296
+//@   requires len(t.nlsBuf) == 0 && (t.nlsBuf == nil || root(t.nlsBuf) != root(in))
+//@   let IN = in
+//@   loop 1:
+//@     invariant base(in) == base(IN) && offset(in) == offset(IN) + off && len(in) == len(IN) - off && 0 <= off && off <= len(IN)
+//@     invariant finalEntry == len(IN)
+//@     invariant out != nil && root(out) != root(IN)
+//@     invariant sortedU32(out)
+//@     invariant forall a int :: 0 <= a && a < len(out) ==> out[a] < off
+//@     invariant forall a int :: 0 <= a && a < len(out) ==> IN[out[a]] == '\n'
+//@     invariant forall a int :: 0 <= a && a < len(IN) ==> IN[a] == old(IN[a])
+//@     decreases len(in)
+//@   ensures sortedU32(result)
+//@   ensures forall a int :: 0 <= a && a < len(result) ==> result[a] <= len(in)
+//@   ensures forall a int :: 0 <= a && a < len(result) && result[a] < len(in) ==> in[result[a]] == '\n'
+//@   ensures forall a int :: 0 <= a && a < len(in) ==> in[a] == old(in[a])
+//@   ensures root(result) != root(in)
+//@   assigns t.nlsBuf, anyelem(uint32)
+
+//@ func index.(*tagsToSections).Convert
+//@   requires t != nil && len(content) < 4294967296
+//@   requires len(t.nlsBuf) == 0 && (t.nlsBuf == nil || root(t.nlsBuf) != root(content))
+//@   requires forall k int :: 0 <= k && k < len(tags) ==> tags[k] != nil
+//@   loop 1:
+//@     invariant -1 <= $i && $i < len(tags)
+//@     invariant len(symMetaData) == len(symOffsets)
+//@     invariant forall a int :: 0 <= a && a < len(symOffsets) ==> symOffsets[a].Start <= symOffsets[a].End
+//@     invariant forall a, b int :: 0 <= a && a < b && b < len(symOffsets) ==> symOffsets[a].End <= symOffsets[b].Start
+//@     invariant forall k int :: 0 <= k && k < len(symOffsets) ==> symOffsets[k].End <= len(content)
+//@     invariant forall k int :: 0 <= k && k < len(symMetaData) ==> symMetaData[k] != nil
+//@     invariant sortedU32(nls) && (forall a int :: 0 <= a && a < len(nls) ==> nls[a] <= len(content))
+//@     invariant symOffsets != nil && symMetaData != nil && root(symOffsets) != root(nls) && root(symMetaData) != root(nls)
+//@     invariant root(symMetaData) != root(tags) && (forall k int :: 0 <= k && k < len(tags) ==> tags[k] != nil)
+//@     invariant forall k int :: 0 <= k && k < len(symOffsets) ==> symOffsets[k].End - symOffsets[k].Start == len(symMetaData[k].Sym)
+//@     invariant forall k, x int :: 0 <= k && k < len(symOffsets) && symOffsets[k].Start <= x && x < symOffsets[k].End ==> content[x] == symMetaData[k].Sym[x - symOffsets[k].Start]
+//@     decreases len(tags) - $i
+//@   ensures result2 == nil
+//@   ensures okSecs(result0) && len(result1) == len(result0)
+//@   ensures forall k int :: 0 <= k && k < len(result0) ==> result0[k].End <= len(content)
+//@   ensures forall k int :: 0 <= k && k < len(result1) ==> result1[k] != nil
+//@   ensures forall k int :: 0 <= k && k < len(result0) ==> result0[k].End - result0[k].Start == len(result1[k].Sym)
+//@   ensures forall k, x int :: 0 <= k && k < len(result0) && result0[k].Start <= x && x < result0[k].End ==> content[x] == result1[k].Sym[x - result0[k].Start]
